@@ -179,7 +179,8 @@ def gen_request(rng, ident, first):
         if rng.random() < 0.1:
             uri += b"#f%d" % ident
     else:
-        uri = b"http://" + host + (b":%d" % port if port > 0 else b"") + b"/r%dz" % ident + rng.choice([b"", b"?x=%d" % ident])
+        userinfo = rng.choice([b"", b"", b"u%d@" % ident, b"alice:s3cret@", b":@", b"a.b-c@"])
+        uri = b"http://" + userinfo + host + (b":%d" % port if port > 0 else b"") + b"/r%dz" % ident + rng.choice([b"", b"?x=%d" % ident])
     proto = rng.choice([b"HTTP/1.1", b"HTTP/1.1", b"HTTP/1.0"])
     hostv = host + (b":%d" % port if port > 0 else b"")
     hdrs = [(rcase(rng, b"Host"), hostv, True)] + [(n, v, False) for n, v in gen_fields(rng, ident, rng.randint(0, 6))]
